@@ -299,7 +299,11 @@ class Builder:
         if k == "option":
             return tys.Option(*self.row(d[1]))
         if k == "either":
-            return tys.Either(self.row(d[1]), self.row(d[2]))
+            # (Either takes any Iterable of types for each side: one-shot generators every other time)
+            l_, r_ = self.row(d[1]), self.row(d[2])
+            if len(repr(d)) % 2:
+                return tys.Either((t for t in l_), iter(r_))
+            return tys.Either(l_, r_)
         if k == "qubit":
             return tys.Qubit
         if k == "usize":
